@@ -96,8 +96,43 @@ def mk_array(case):
 
 
 # =========================================================================================== oracle
+_CONV = ('mvarray', 'bparray', 'mv_to_bp', 'bp_to_mv', 'unpackbits', 'packbits')
+
+
 def eval_case(case):
-    """returns (ok, observed, expected, cls) for one JSON-able case, run on the REAL code"""
+    """returns (ok, observed, expected, cls) for one JSON-able case, run on the REAL code.
+    The conversions are functions of their arguments: the case is evaluated, every array the conversions RETURNED is then
+    overwritten in place (as kyupy.stil does with a pattern it got from mvarray), and the case is evaluated again on fresh
+    inputs — a result that changes is a conversion that hands out shared state (class `stale-result`)."""
+    from kyupy import logic
+    got, orig = [], {n: getattr(logic, n) for n in _CONV}
+    def rec(f):
+        def g(*a, **k):
+            r = f(*a, **k)
+            if isinstance(r, np.ndarray): got.append(r)
+            return r
+        return g
+    try:
+        for n in _CONV: setattr(logic, n, rec(orig[n]))
+        first = _eval_once(case)
+    finally:
+        for n in _CONV: setattr(logic, n, orig[n])
+    if not first[0]: return first
+    seen = set()
+    for r in got:
+        base = r if r.base is None else r.base
+        if id(base) in seen: continue          # the same memory handed out twice must be overwritten once
+        seen.add(id(base))
+        if r.flags.writeable and r.size:
+            try: r[...] = ~r if r.dtype != np.bool_ else ~r
+            except Exception: pass
+    second = _eval_once(case)
+    if not second[0]:
+        return False, {'second evaluation after overwriting the first results in place': second[1]}, second[2], 'stale-result'
+    return first
+
+
+def _eval_once(case):
     import kyupy
     from kyupy import logic
     kind = case['kind']
@@ -411,6 +446,7 @@ WHAT = {
     'bp-roundtrip': 'bp_to_mv(mv_to_bp(a))[..., :P] differs from a & 7',
     'bp-padding': 'padding lanes of the bit-parallel array are not 0',
     'bp-layout': 'bit (p % 8) of byte p // 8 of plane k is not bit k of pattern p',
+    'stale-result': 'a conversion returns shared state: after an earlier result was modified in place, the same conversion of the same input gives a different result',
 }
 
 
